@@ -20,13 +20,12 @@ META = {
     'technique': 'Coq proof (case analysis on values, induction on container contexts, arithmetic of half-even rounding) about a '
                  'hand-written Gallina model + differential correspondence with the implementation and a docs-derived reference oracle',
     'design_ref': 'DESIGN.md section 4 C04',
-    'theorems_final': ['C04_truthy_is_documented', 'C04_bool', 'C04_bool_v1', 'C04_int_v0', 'C04_int_v1',
-                 'C04_round_half_even', 'C04_round_unique', 'C04_int_of_str_shape', 'C04_str',
+    'theorems': ['C04_truthy_is_documented', 'C04_bool', 'C04_bool_v1', 'C04_round_half_even', 'C04_round_unique',
+                 'C04_int_of_str_shape', 'C04_scalar_ref_partial', 'C04_int_v0', 'C04_int_v1', 'C04_str',
                  'C04_datetime_z_suffix', 'C04_datetime_numeric_utc', 'C04_datetime_numeric_v1_partial',
                  'C04_datetime_numeric_v1_refuted', 'C04_datetime_env_numeric_string', 'C04_timedelta_dispatch',
-                 'C04_enum', 'C04_decimal', 'C04_scalar_ref', 'C04_everywhere', 'C04_everywhere_ref',
+                 'C04_enum', 'C04_decimal', 'C04_everywhere', 'C04_everywhere_ref',
                  'C04_env_split', 'C04_env_split_dict', 'C04_env_tuple_refuted'],
-    'theorems': [],
     'tables': ['Truthy'],
     'level_text': ('Theorems proved in Coq for ALL JSON-ish inputs (unbounded ints, exact dyadic floats, arbitrary ASCII strings, '
                    'nested lists/dicts), all three engines and all container contexts, about an executable model of type_conv.py '
